@@ -194,3 +194,32 @@ def simple_paths(edges_by_src, src, targets, avoid=(), limit=200):
             rec(dst, path + [dst])
     rec(src, [src])
     return out
+
+
+def prim_keys(view, lits):
+    """Expand literals through single comb definitions and keep only the primitive ones (no definition)."""
+    out = set()
+    for a, p in view.expand(lits):
+        if isinstance(a, (Obj, Sym)) and view.single_comb_def(a) is not None:
+            continue
+        out.add(lkey((a, p)))
+    return out
+
+
+def fire_keys(view, ep):
+    """Primitive conjunct set of  ep.valid & ep.ready."""
+    k = ep if isinstance(ep, str) else key(ep)
+    return prim_keys(view, [(Sym(k + ".valid"), True), (Sym(k + ".ready"), True)])
+
+
+def value_prim_keys(view, t):
+    return prim_keys(view, conj(t))
+
+
+def find_connect(view, src=None, dst=None):
+    r = []
+    for l in view.leaves:
+        if l.kind == "connect":
+            if (src is None or key(l.value) == src) and (dst is None or key(l.target) == dst):
+                r.append(l)
+    return r
